@@ -122,8 +122,46 @@ def multi_ref_family():
     return out
 
 
+def sparse_nesting_family():
+    """an import c with an import d of its own, merged after (or before) a sibling b: nested objects two and three levels
+    down where the MIDDLE layer (d, or c, or b) lacks the inner key, so that the inner object of the layer above reaches
+    the layer below only through the re-merge at import time (learnt from seeded change C10-k: a property whose base was
+    already set was not re-merged when a sibling arrived underneath)"""
+    out = []
+
+    def obj(path, leaf):
+        v = ("obj", [leaf])
+        for k in path[::-1]:
+            v = ("obj", [(k, v)])
+        return v
+    for depth in (1, 2, 3):
+        path = ["obj", "inner", "deep"][:depth]
+        for lacking in ("d", "c", "b", None):
+            for order in (["b", "c"], ["c", "b"], ["b", "c", "b"]):
+                def val(nm):
+                    if nm == lacking:
+                        return ("obj", [("other_" + nm, ("num", "1"))]) if depth == 1 else obj(path[:-1], ("other_" + nm, ("num", "1")))
+                    return obj(path, ("from_" + nm, ("num", "1")))
+                envs = {"d": {"imports": [], "values": [(path[0], val("d"))] if True else []},
+                        "c": {"imports": [("d", True)], "values": [(path[0], val("c"))]},
+                        "b": {"imports": [], "values": [(path[0], val("b"))]}}
+                for own in (False, True):
+                    rv = [(path[0], obj(path, ("from_root", ("num", "1"))))] if own else []
+                    seen = []
+                    for m in sorted(set(order)):
+                        rv.append(("seen_" + m, ("sym", [("name", "imports"), ("name", m)])))
+                        seen.append(("seen_" + m, m))
+                    e = dict(envs)
+                    e["root"] = {"imports": [(m, True) for m in order], "values": rv}
+                    c = G.case_from_graph(e, "root")
+                    c["provs"] = {}
+                    c["seen"] = seen
+                    out.append(c)
+    return out
+
+
 def gen(rng, tier):
-    cases = alias_family() + multi_ref_family()
+    cases = alias_family() + multi_ref_family() + sparse_nesting_family()
     n = 2500 if tier == "thorough" else 300
     for i in range(n):
         r = rng.fork("g%d" % i)
